@@ -40,6 +40,16 @@ def unphase_checks(inp, out, ctx, tag=""):
             for t in PHASE_TAGS:
                 if t in c["fmt"]:
                     ctx.violation("unphase:value-keeps-" + t, "record %d sample %s keeps %s=%r" % (i, s, t, c["fmt"][t]))
+    # raw text: htslib reports a genotype with mixed separators ('1|0/1') as unphased, so look at the text as well
+    with open(out) as f:
+        for line in f:
+            if line.startswith("#"):
+                continue
+            cols = line.rstrip("\n").split("\t")
+            if len(cols) > 9 and cols[8].split(":")[0] == "GT":
+                for s_idx, col in enumerate(cols[9:]):
+                    if "|" in col.split(":")[0]:
+                        ctx.violation("unphase:still-phased", "%s:%s sample %d GT %r still contains a phase separator" % (cols[0], cols[1], s_idx, col.split(":")[0]))
     return a, b
 
 
@@ -53,7 +63,8 @@ class UnphasePart:
             ps_type = draw(st.sampled_from(["Integer", "Integer", "String"]))
             model, truth = vm.gen_vcf(
                 draw, ploidy_choices=(1, 2, 2, 2, 3, 4, 6), per_call_ploidy=True, no_gt_records=True, symbolic=True,
-                no_alt=True, phasing=("none", "PS", "HP"), ps_type=ps_type, hom_phased=True, stale_ps=True)
+                no_alt=True, phasing=("none", "PS", "HP"), ps_type=ps_type, hom_phased=True, stale_ps=True,
+                mixed_separators=True, unsorted_gt=True)
             return {"model": model, "truth": truth}
         return case()
 
@@ -109,7 +120,10 @@ class AfterPhasePart:
     def run(self, case, ctx):
         from vlib import pipeline as P
         d = ctx.tmp()
-        paths, reads = P.materialise(case, d)
+        # unphased genotypes are written in descending order for every second variant ('1/0')
+        gts = {s: {c["name"]: ["/".join(map(str, sorted((h[vi] for h in case["haps"][s][c["name"]]), reverse=(vi % 2 == 0))))
+                               for vi in range(len(case["variants"][c["name"]]))] for c in case["contigs"]} for s in case["samples"]}
+        paths, reads = P.materialise(case, d, vcf_kwargs={"gts": gts})
         if "bam" not in paths:
             return
         out, _ = P.run_phase(d, paths["vcf"], [paths["bam"]], reference=paths["ref"], tag=case["tag"], trace=False)
